@@ -46,9 +46,10 @@ const (
 	OpAccess // hooked shared-memory access made visible as a point
 	OpEnd
 	OpLockAcq // second half of RWMutex.Lock: the announced writer waits for the readers to leave
+	OpAtomic  // sync/atomic operation
 )
 
-var opNames = [...]string{"start", "lock", "rlock", "wgadd", "wgdone", "wgwait", "spawn", "spin", "obs", "wait", "acc", "end", "lockacq"}
+var opNames = [...]string{"start", "lock", "rlock", "wgadd", "wgdone", "wgwait", "spawn", "spin", "obs", "wait", "acc", "end", "lockacq", "atomic"}
 
 func (k OpKind) String() string {
 	if int(k) < len(opNames) {
@@ -171,8 +172,9 @@ type Exec struct {
 	chans      map[unsafe.Pointer]*chanState
 	conds      map[uint32][]*thread // waiters per condition variable
 	locPool    []locState           // slab of shadow states (monitor.go)
-	det        bool                 // deterministic tail: no further choice points are recorded
-	fp         uint64               // running fingerprint of the Mazurkiewicz trace (xor of event hashes)
+	atomics    map[unsafe.Pointer]*atomicState
+	det        bool   // deterministic tail: no further choice points are recorded
+	fp         uint64 // running fingerprint of the Mazurkiewicz trace (xor of event hashes)
 	divergence string
 }
 
@@ -838,6 +840,15 @@ func Choose(n int) int {
 	return c
 }
 
+// SpawnCount returns how many threads the calling thread has started so far (harness use: which
+// request of a client a goroutine belongs to).
+func SpawnCount() int {
+	if e := cur; e != nil && e.running != nil {
+		return e.running.nspawn
+	}
+	return 0
+}
+
 // ThreadPath returns the spawn path of the running thread ("" when detached).
 func ThreadPath() string {
 	if cur == nil {
@@ -1002,4 +1013,47 @@ func (e *Exec) CondSignal(r *ObjRef, all bool) {
 	e.conds[id] = ws[n:]
 	t.tick()
 	e.logEvent(t, OpObs)
+}
+
+// ---- sync/atomic ----
+
+type atomicState struct {
+	vc []uint32
+	dc []uint32
+}
+
+// AtomicP is wrapped around the address operand (or receiver) of every sync/atomic operation of the
+// instrumented code. The operation is a scheduling point; all operations on one address are totally
+// ordered, mutually dependent, and each one is both an acquire and a release (Go's atomics are
+// sequentially consistent), so data published through an atomic flag is not reported as a race.
+func AtomicP[T any](p *T) *T {
+	if e := cur; e != nil {
+		e.atomicOp(unsafe.Pointer(p))
+	}
+	return p
+}
+
+func (e *Exec) atomicOp(p unsafe.Pointer) {
+	t := e.running
+	if t.aborted || p == nil {
+		return
+	}
+	e.point(OpAtomic, 0, 0, nil)
+	if t.aborted {
+		return
+	}
+	if e.atomics == nil {
+		e.atomics = map[unsafe.Pointer]*atomicState{}
+	}
+	st := e.atomics[p]
+	if st == nil {
+		st = &atomicState{}
+		e.atomics[p] = st
+	}
+	joinVC(&t.vc, st.vc)
+	joinVC(&t.dc, st.dc)
+	e.event(t, OpAtomic, 0)
+	st.vc = cloneVC(t.vc)
+	st.dc = cloneVC(t.dc)
+	t.tick()
 }
